@@ -61,31 +61,28 @@ def _gen_num(ctx, ty):
 
 
 def _validate_shard(ctx, idx, recs):
-    """Trace validation of one shard with continue-after-rejection. Returns (validated, [(record, k, expected)])"""
-    validated, rej = 0, []
-    rnd = 0
-    while recs:
-        rnd += 1
-        tp = os.path.join(ctx.work, "trace-%d-%d.ndjson" % (idx, rnd))
-        write_ndjson(tp, recs)
-        tr = ctx.tlc_trace("Trace_StdModels", "Trace_StdModels", tp, name="trace-%d-%d" % (idx, rnd), timeout=3600, count=False)
-        if tr.violated is None:
-            validated += len(recs)
-            os.remove(tp)
-            break
-        m = re.search(r'<<"FIRST-UNMATCHED", (\d+), (\d+), "([^"]*)", "(.*)">>', tr.out)
-        if tr.violated != "postcondition" or not m:
-            raise ToolError("Trace_StdModels failed unexpectedly (%s); see work/%s/tlc-trace-%d-%d.out" % (tr.violated, ctx.pid, idx, rnd))
+    """Trace validation of one shard: one TLC run decides every record; rejected records are printed by the trace
+    spec (REJECTED ...) and skipped. Returns (validated, [(record, k, expected)])"""
+    if not recs:
+        return 0, []
+    tp = os.path.join(ctx.work, "trace-%d.ndjson" % idx)
+    write_ndjson(tp, recs)
+    tr = ctx.tlc_trace("Trace_StdModels", "Trace_StdModels", tp, name="trace-%d" % idx, timeout=5400, count=False)
+    os.remove(tp)
+    rej = []
+    for m in re.finditer(r'<<"REJECTED", (\d+), (\d+), "([^"]*)", "(.*)">>', tr.out):
         l, k = int(m.group(1)), int(m.group(2))
         try:
             expected = json.loads(m.group(4).replace('\\"', '"').replace("\\\\", "\\"))
         except Exception:
             expected = m.group(4)
-        validated += l - 1
         rej.append((recs[l - 1], k, expected))
-        recs = recs[l:]
-        os.remove(tp)
-    return validated, rej
+    m = re.search(r'<<"NOT-ACCEPTED", "consumed", (\d+), "of", (\d+), "rejected", (\d+)>>', tr.out)
+    if tr.violated is None and not rej:
+        return len(recs), []
+    if tr.violated != "postcondition" or not m or int(m.group(1)) != len(recs) or int(m.group(3)) != len(rej):
+        raise ToolError("Trace_StdModels failed unexpectedly (%s); see work/%s/tlc-trace-%d.out" % (tr.violated, ctx.pid, idx))
+    return len(recs) - len(rej), rej
 
 
 def _content_key(r):
@@ -172,7 +169,12 @@ def finding_key(rec, k):
     """Key naming the specific failing input: numeric case = type/op/mode/operands; history = the operation at which
     the trace stops matching together with the model state it is applied in (independent of the history's index)."""
     if rec["rt"] == "num":
-        return rec["id"]
+        # one recorded mechanism: in optimised builds the IR `cse` pass merges the checked operation that follows a
+        # wrapping_* call with the (flag-protected) operation inside it, so the second one no longer reverts
+        if rec["op"].startswith("wrapping_") and rec["profile"] == "release" and rec["out"] == "return" \
+                and len(rec["logs"]) == 2 and rec["logs"][0] == rec["logs"][1]:
+            return "num:%s:%s:release:checked-op-merged-with-wrapping-op" % (rec["ty"], rec["op"])
+        return rec["id"] + "@" + rec["profile"]
     ops = rec["ops"]
     o = ops[min(k, len(ops)) - 1]
     return "coll:%s:%s:%s(%d,%d,%d)@%s" % (rec["kind"], rec["ety"], o["op"], o["i"], o["j"], o["v"],
@@ -182,6 +184,14 @@ def finding_key(rec, k):
 def run(ctx):
     t0 = time.time()
     quick = ctx.quick
+    # ---- 0. the collection model on its own (thorough): all histories new ++ <= 3 operations of a Bytes over the full
+    #         alphabet, invariants CapInv + Laws, with action coverage
+    mc_cov = None
+    if not quick:
+        mc = ctx.tlc("MC_StdModels", "MC_StdModels", workers=2, coverage=True, xss="256m", timeout=3600)
+        if mc.violated:
+            ctx.report("model:" + mc.violated, "StdModels.tla violates its own invariant " + mc.violated, {"tlc": mc.counterexample()[:4000]})
+        mc_cov = mc.coverage_actions()
     # ---- 1. pools from TLC
     if quick:
         gens = slice_for_seed(GEN, ctx.seed, 2)
@@ -253,7 +263,7 @@ def run(ctx):
         "histories": len(hist), "numeric_cases": len(cases), "pools": pools, "profiles": profiles,
         "records_executed": len(all_recs), "records_reverting": nrev, "rejections": len(rej),
         "build_or_run_failures": len(failures), "operation_occurrences": opcount,
-        "binding_selftest": selftest,
+        "binding_selftest": selftest, "action_coverage": mc_cov,
         "samples": samples,
     }, assumptions=[
         "the documentation is the doc comments of sway-lib-std (vec.sw, bytes.sw, string.sw, u128.sw, math.sw, ops.sw, flags.sw, primitive_conversions); where they are silent the model does not constrain (capacity after undocumented reallocations only has to be >= len; U128::sqrt(0), U128 multiplication with both upper words set under disabled overflow panics, and the value of division by zero / log of zero under disabled unsafe-math panics are not generated or only required not to revert)",
